@@ -11,16 +11,20 @@ import (
 // a loop that visits every index of el, instead of by the spelling of that loop.
 //
 // Atoms:  CUR   - the element at the loop's current index is nil
-//         F     - a boolean the loop carries (a phi of its header): "a nil has been seen" flags, whatever they are called
-//         RANGE - the header's own test (index still in range)
+//
+//	F     - a boolean the loop carries (a phi of its header): "a nil has been seen" flags, whatever they are called
+//	RANGE - the header's own test (index still in range)
+//
 // Invariant I at the header:   (every carried boolean is false)  =>  (every element visited so far is non-nil).
-//   init  : nothing visited yet - holds whatever the flags are.
-//   step  : for every path once round the loop, from what the path's branches say and from I: if all the new flag
-//           values are false then the old flags were false and the element of this trip is non-nil. A flag's new
-//           value may be a constant, the old flag, or the very test CUR; a trip that neither branches on CUR nor
-//           records it in a flag is rejected.
-//   exit  : every feasible path from the header to `at` has RANGE false (the loop ran out of indexes, it was not
-//           left early) and every flag known false (tested on the way); then I gives the claim.
+//
+//	init  : nothing visited yet - holds whatever the flags are.
+//	step  : for every path once round the loop, from what the path's branches say and from I: if all the new flag
+//	        values are false then the old flags were false and the element of this trip is non-nil. A flag's new
+//	        value may be a constant, the old flag, or the very test CUR; a trip that neither branches on CUR nor
+//	        records it in a flag is rejected.
+//	exit  : every feasible path from the header to `at` has RANGE false (the loop ran out of indexes, it was not
+//	        left early) and every flag known false (tested on the way); then I gives the claim.
+//
 // Branches are followed consistently: a path that assumes an atom both ways is infeasible and dropped.
 func scanEstablishesNoNil(p *prover, el ssa.Value, at ssa.Instruction) (bool, string) {
 	fn := p.fn
